@@ -611,7 +611,12 @@ func c23Run(x *c23Ctx, t *testing.T, cs c23Case) { //nolint:cyclop,gocognit,main
 		r = p.Signal(rcv, snd, vPairSignalHooks{})
 	}
 	if r.OfferApplyErr != nil || r.AnswerApplyErr != nil {
-		vPairFatalf("signaling failed: %v %v (%s)", r.OfferApplyErr, r.AnswerApplyErr, cs.key())
+		// Both sides register the same codecs and every description comes from pion itself: a refused
+		// description means the written RTP can never arrive (deterministic API error, not a timeout).
+		viol(fmt.Sprintf("negotiation-refused|codec=%s|bundle=%s", cs.Codec, cs.Bundle),
+			fmt.Sprintf("the exchange between two pion peers with identical codec registrations was refused: applying the offer: %v, applying the answer: %v", r.OfferApplyErr, r.AnswerApplyErr), nil)
+
+		return
 	}
 	senderSDP := r.Offer.SDP
 	if !cs.OffererIsSende {
